@@ -26,8 +26,9 @@ LEVEL_NOTE = (
 )
 RULE = (
     "exhaustive part: every irreflexive relation on n <= 4 subtasks (4,166) and every relation incl. self-precedences on "
-    "n <= 3 (531) [thorough: additionally every irreflexive relation on 5 subtasks, 2^20], each built in 3 variants "
-    "(1 for n = 5): canonical/shuffled/reversed insertion and subtask order, TaskNetwork and Method, every spelling of "
+    "n <= 3 (531) [thorough: additionally every irreflexive relation on 5 subtasks up to relabelling of the subtasks: "
+    "the 9,608 isomorphism classes of digraphs on 5 nodes, 8 random relabellings of each], each built in 3 variants "
+    "(1 random variant per relabelling for n = 5): canonical/shuffled/reversed insertion and subtask order, TaskNetwork and Method, every spelling of "
     "'end(a) < start(b)' (set_strictly_before on subtasks/timepoints/timings, set_ordered, LT, GT, zero Fraction delay). "
     "random part: relations on 5-6 subtasks biased to chains / near-chains / cycles, optionally with non-temporal "
     "constraints (which must be ignored), and 'mixed' networks = precedences + >= 1 temporal constraint of another kind "
@@ -41,7 +42,7 @@ ASSUMPTIONS = [
 ]
 SHARD_TIMEOUT = {"quick": 600, "thorough": 3600}
 
-N_RANDOM = {"quick": 2400, "thorough": 120000}
+N_RANDOM = {"quick": 2400, "thorough": 40000}
 N_SHARDS = {"quick": 16, "thorough": 16}
 
 PRECEDENCE_FORMS = ["sb_subtask", "sb_timepoint", "sb_timing", "lt", "gt", "ordered", "frac0"]
@@ -50,6 +51,15 @@ ODD_FORMS = [
     "global_start", "global_end", "local_end", "local_start", "const", "plus_expr", "minus_expr",
 ]  # fmt: skip
 NT_FORMS = ["nt_boolvar", "nt_eq", "true"]
+ODD_CLASS = {
+    "delay_lhs": "delay", "delay_rhs": "delay", "delay_neg": "delay", "delay_frac": "delay",
+    "ss": "timepoint-kind", "ee": "timepoint-kind", "se": "timepoint-kind",
+    "le": "non-strict-or-equality", "ge": "non-strict-or-equality", "eq": "non-strict-or-equality",
+    "and": "boolean-combination", "or": "boolean-combination", "not": "boolean-combination",
+    "global_start": "non-subtask-timepoint", "global_end": "non-subtask-timepoint",
+    "local_end": "non-subtask-timepoint", "local_start": "non-subtask-timepoint",
+    "const": "arithmetic", "plus_expr": "arithmetic", "minus_expr": "arithmetic",
+}  # fmt: skip
 
 IDENT_SCHEMES = [
     ["a", "b", "c", "d", "e", "f"],
@@ -77,9 +87,49 @@ def cells_for(tier):
     for n in range(0, 4):
         cells.append(["refl", n, 0, 1 << (n * n)])
     if tier == "thorough":
-        for lo in range(0, 1 << 20, 4096):
-            cells.append(["irr", 5, lo, lo + 4096])
+        reps = iso_representatives(5)
+        for lo in range(0, len(reps), 128):
+            cells.append(["iso", 5, lo, min(lo + 128, len(reps)), reps[lo : lo + 128]])
     return cells
+
+
+N_ISO5 = 9608  # number of digraphs on 5 unlabelled nodes (OEIS A000273)
+RELABELLINGS = 8
+_iso_cache = {}
+
+
+def iso_representatives(n):
+    """Least mask of every orbit of the irreflexive relations on n elements under relabelling (orbit marking).
+    Self-checked: the orbit sizes must add up to 2^(n(n-1)) and, for n = 5, there must be 9,608 orbits."""
+    import itertools
+
+    if n in _iso_cache:
+        return _iso_cache[n]
+    prs = pairs_of(n, False)
+    pos = {p: k for k, p in enumerate(prs)}
+    tables = [[pos[(pi[a], pi[b])] for a, b in prs] for pi in itertools.permutations(range(n))]
+    total = 1 << len(prs)
+    seen = bytearray(total)
+    reps = []
+    covered = 0
+    for mask in range(total):
+        if seen[mask]:
+            continue
+        reps.append(mask)
+        bits = [k for k in range(len(prs)) if mask >> k & 1]
+        orbit = set()
+        for tb in tables:
+            img = 0
+            for k in bits:
+                img |= 1 << tb[k]
+            orbit.add(img)
+        for img in orbit:
+            seen[img] = 1
+        covered += len(orbit)
+    if covered != total or (n == 5 and len(reps) != N_ISO5):
+        raise RuntimeError(f"orbit enumeration is wrong: {len(reps)} orbits covering {covered} of {total} relations")
+    _iso_cache[n] = reps
+    return reps
 
 
 def expected_relations(tier):
@@ -239,12 +289,8 @@ def judge_network(net, subs, recipe, res, viol):
     try:
         to = net.total_order()
         po = net.partial_order()
-        to2 = net.total_order()
     except _env.INTERNAL_EXC as e:
         viol(f"ordering-raises:{type(e).__name__}", f"total_order/partial_order raised {e!r} on {describe(ids, P, odd)}")
-        return True
-    if to2 != to:
-        viol("total-order-unstable", f"two total_order() calls differ: {to} then {to2}")
         return True
     if nts:
         res.count("with_nontemporal_constraints")
@@ -256,7 +302,7 @@ def judge_network(net, subs, recipe, res, viol):
             res.nt(("mixed", sorted(P), sorted(odd), len(ids)))
         if to is not None:
             viol(
-                "total-order-reported-with-non-precedence-constraint:" + "+".join(sorted(set(odd))),
+                "total-order-reported-with-non-precedence-constraint:" + "+".join(sorted({ODD_CLASS[f] for f in odd})),
                 f"total_order()={to} although the network has temporal constraints {sorted(set(odd))} that are not end<start precedences ({describe(ids, P, odd)})",
                 expected=None,
                 observed=to,
@@ -264,7 +310,7 @@ def judge_network(net, subs, recipe, res, viol):
             return True
         if po is not None:
             viol(
-                "partial-order-reported-with-non-precedence-constraint:" + "+".join(sorted(set(odd))),
+                "partial-order-reported-with-non-precedence-constraint:" + "+".join(sorted({ODD_CLASS[f] for f in odd})),
                 f"partial_order()={po} although the network has temporal constraints {sorted(set(odd))} that are not end<start precedences ({describe(ids, P, odd)})",
                 expected=None,
                 observed=po,
@@ -374,18 +420,41 @@ def relation_recipe(rng, n, pairs, variant, scheme_i):
     return {"cls": cls, "idents": idents, "subtask_order": order, "subtask_kind": kind, "constraints": cons}
 
 
+def run_iso_cell(cell, tier, seed, res):
+    """n = 5: one isomorphism-class representative per relation, RELABELLINGS random relabellings of each."""
+    _, n, lo, hi, reps = cell
+    all_pairs = pairs_of(n, False)
+    rng = rng_for(PROPERTY, "isocell", seed, n, lo)
+    env = _env.fresh_env()
+    for mask in reps:
+        base = [p for k, p in enumerate(all_pairs) if mask >> k & 1]
+        res.count("exhaustive_relations")
+        res.count("exhaustive_iso_classes")
+        for r in range(RELABELLINGS):
+            pi = list(range(n))
+            if r:
+                rng.shuffle(pi)
+            pairs = [(pi[a], pi[b]) for a, b in base]
+            rec = relation_recipe(rng, n, pairs, rng.choice([0, 1, 2]), (mask + r) % len(IDENT_SCHEMES))
+            wb = {"case_key": f"{PROPERTY}:isocell:{n}:{mask}:{r}", "tier": tier, "kind": "exhaustive"}
+            if judge_recipe(rec, res, wb, env):
+                return False
+    return True
+
+
 def run_cell(cell, tier, seed, res):
+    if cell[0] == "iso":
+        return run_iso_cell(cell, tier, seed, res)
     space, n, lo, hi = cell
     all_pairs = pairs_of(n, space == "refl")
-    variants = [0] if n >= 5 else [0, 1, 2]
+    variants = [0, 1, 2]
     rng = rng_for(PROPERTY, "cell", seed, space, n, lo)
     env = _env.fresh_env()  # one environment per cell (only well-typed precedence constraints are built in it)
     for mask in range(lo, hi):
         pairs = [p for k, p in enumerate(all_pairs) if mask >> k & 1]
         res.count("exhaustive_relations")
         for v in variants:
-            vv = v if n < 5 else rng.choice([0, 1, 2])
-            rec = relation_recipe(rng, n, pairs, vv, (mask + v) % len(IDENT_SCHEMES))
+            rec = relation_recipe(rng, n, pairs, v, (mask + v) % len(IDENT_SCHEMES))
             wb = {"case_key": f"{PROPERTY}:cell:{space}:{n}:{mask}:{v}", "tier": tier, "kind": "exhaustive"}
             if judge_recipe(rec, res, wb, env):
                 return False
@@ -531,6 +600,6 @@ def extra_coverage(m):
     tier = "thorough" if c.get("tier:thorough") else "quick"
     return {
         "exhaustive_space": "all irreflexive precedence relations on n<=4 subtasks and all relations incl. self-precedences on n<=3"
-        + (" and all irreflexive relations on 5 subtasks" if tier == "thorough" else ""),
+        + (" and all irreflexive relations on 5 subtasks up to relabelling (9,608 isomorphism classes x 8 relabellings)" if tier == "thorough" else ""),
         "exhaustive_relations_enumerated": c.get("exhaustive_relations", 0),
     }
